@@ -747,7 +747,13 @@ static J handle(const J& cmd)
             for (auto& n : gv->a)
             {
                 auto v = scope->try_get(n.s);
-                if (v.has_value()) { J e = J::obj(); e.set("sqf", v->to_string_sqf()); if (cmd.boolean("getvars_struct", false)) e.set("value", value_json(*v)); vals.set(n.s, e); }
+                if (v.has_value())
+                {
+                    J e = J::obj();
+                    // structural read-back is depth limited (safe on cyclic values); the printed form is only produced when asked for
+                    if (cmd.boolean("getvars_struct", false)) e.set("value", value_json(*v)); else e.set("sqf", v->to_string_sqf());
+                    vals.set(n.s, e);
+                }
             }
             reply.set("vars", vals);
         }
